@@ -1,7 +1,7 @@
 //! C06 — emitted AML parses back to exactly the term tree the caller built.
 use crate::aml::gen;
 use crate::aml::parse::{parse_all, N};
-use crate::aml::tree::{arities, expect, real, T};
+use crate::aml::tree::{arities, expect, has_builder, real, real_from_origin, T};
 use crate::ev::Ctx;
 use crate::util::{catch, fnv, hex};
 use rayon::prelude::*;
@@ -67,6 +67,22 @@ fn check_one(ctx: &Ctx, who: &str, family: &'static str, t: &T) {
     arities(t, &mut ar);
     let want = expect(t);
     let size = bytes.len() as u64;
+    if has_builder(t) {
+        // the normaliser principle for builders: a builder obtained through `Default` (or left behind by `core::mem::take`)
+        // is a builder, and the term it builds is the same term
+        for (origin, how) in [(1u8, "PackageBuilder::default()"), (2, "a builder left behind by core::mem::take")] {
+            ctx.tr(1);
+            let got = catch(|| real_from_origin(t, origin));
+            if got.as_ref().ok() != Some(&bytes) {
+                ctx.violation_sized(
+                    &format!("aml:{}:builder-origin{}", who, origin),
+                    size,
+                    || format!("{} [{}]: built through {} the term serialises differently: {} vs {} ; program {}", who, family, how, match &got { Ok(g) => hex(&g[..g.len().min(48)]), Err(m) => format!("panic: {}", m) }, hex(&bytes[..bytes.len().min(48)]), short(t)),
+                    || json!({"family":"aml","ctor":who,"program":short(t),"t":tjson(t),"builder_origin":origin}),
+                );
+            }
+        }
+    }
     match parse_all(&bytes, &ar) {
         Err(why) => {
             ctx.violation_sized(
